@@ -607,9 +607,9 @@ func (sps *H265RawSPS) Decode(data []byte) (err error) {
 	sps.Log2_max_pic_order_cnt_lsb_minus4 = r.ReadUe8()
 
 	sps.Sps_sub_layer_ordering_info_present_flag = r.ReadBit()
-	loopStart := uint8(0)
+	loopStart := sps.Sps_max_sub_layers_minus1
 	if sps.Sps_sub_layer_ordering_info_present_flag == 1 {
-		loopStart = sps.Sps_max_sub_layers_minus1
+		loopStart = 0
 	}
 	for i := loopStart; i <= sps.Sps_max_sub_layers_minus1; i++ {
 		sps.Sps_max_dec_pic_buffering_minus1[i] = r.ReadUe8()
